@@ -65,6 +65,7 @@ type Opts struct {
 	// FirstCeremonyIn: simulated time from start to the first validation; 0 = far future (no epoch in run)
 	CeremonySoon    bool
 	Rich            bool // funded accounts get a million coins
+	SmallShards     bool // some runs use small shard size limits (several shards after the first epoch change)
 	RealEpochDays   bool // ValidationInterval = 0: use the protocol's epoch length (needs large networks)
 	BigNetworkBias  int  // 1-in-N runs draw MaxIdent towards the upper bound
 	Zones           bool // give replicas different time zones
@@ -124,6 +125,17 @@ func New(r *vfw.Run, o Opts) *Scn {
 	}
 	if o.MaxIdent < o.MinIdent {
 		o.MaxIdent = o.MinIdent
+	}
+	// tuning knob (process-wide, so set on every run): the shard size limits. With the protocol's 2400 / 5000 a simulated
+	// network stays in one shard for ever; small limits split it at its first epoch change (blockchain.balanceShards)
+	common.VerifSetShardSizes(2400, 5000)
+	if o.SmallShards {
+		if k := t.ChooseOpt("cfg.smallshards", 4); k != 0 {
+			lim := [][2]int{{2, 4}, {3, 6}, {4, 9}}[k-1]
+			if common.VerifSetShardSizes(lim[0], lim[1]) {
+				r.Probe(fmt.Sprintf("shard_size_limits_%d_%d", lim[0], lim[1]))
+			}
+		}
 	}
 	n := o.MinIdent + t.Choose("cfg.nident", o.MaxIdent-o.MinIdent+1)
 	s.Script = uint64(t.Choose("cfg.script", 1<<30)) + 1
